@@ -432,6 +432,23 @@ def run_case(case):
 
 def shrink(case):
     n = len(case["X"])
+    if n > 40:
+        # large worlds: drop blocks of rows (half, quarter, ...) before single rows
+        size = n // 2
+        while size >= 8:
+            for start in range(0, n, size):
+                keep = [i for i in range(n) if not (start <= i < start + size)]
+                if not keep:
+                    continue
+                c = dict(case)
+                c["X"] = [case["X"][i] for i in keep]
+                c["Y"] = [case["Y"][i] for i in keep]
+                c["ids"] = [case["ids"][i] for i in keep]
+                c["n"] = len(keep)
+                if sorted(set(c["Y"])) == list(range(case["K"])):
+                    yield c
+            size //= 2
+        return
     for i in range(n - 1, -1, -1):
         if n <= 1:
             break
